@@ -172,7 +172,9 @@ class Distribution:
         :py:meth:`.is_updateable` returns ``True`` -- the stored keyword arguments of
         the parametric distribution.
         """
-        args_and_kwargs_tpl = self._func.args + tuple(self._func.keywords.items())
+        args_and_kwargs_tpl = ()
+        if self.is_updateable:
+            args_and_kwargs_tpl = self._func.args + tuple(self._func.keywords.items())
         return hash((self.is_updateable, args_and_kwargs_tpl, self.pmf.tobytes()))
 
     @property
